@@ -116,9 +116,9 @@ fn gen_f(r: &mut Sm, k: Kind, extended: bool) -> f64 {
 }
 
 /// core-domain constructor tuples per family
-fn ctor_tuple(r: &mut Sm, fam: &str, types: &[String], names: &[String], extended: bool) -> Vec<Arg> {
+pub fn ctor_tuple(r: &mut Sm, fam: &str, types: &[String], names: &[String], extended: bool, lattice: bool) -> Vec<Arg> {
     // lattice tuple now and then
-    if r.below(8) == 0 {
+    if lattice && r.below(8) == 0 {
         return types
             .iter()
             .map(|t| {
@@ -228,18 +228,18 @@ fn ctor_tuple(r: &mut Sm, fam: &str, types: &[String], names: &[String], extende
     }
 }
 
-fn reply_f(s: &str) -> Option<f64> {
+pub fn reply_f(s: &str) -> Option<f64> {
     let s = s.strip_prefix("f:")?;
     u64::from_str_radix(s, 16).ok().map(f64::from_bits)
 }
-fn reply_i(s: &str) -> Option<i128> {
+pub fn reply_i(s: &str) -> Option<i128> {
     s.strip_prefix("i:")?.parse().ok()
 }
 
-const P_GRID: [f64; 15] = [1e-9, 1e-6, 1e-4, 1e-3, 1e-2, 0.1, 0.25, 0.5, 0.75, 0.9, 0.99, 0.999, 1.0 - 1e-4, 1.0 - 1e-6, 1.0 - 1e-9];
+pub const P_GRID: [f64; 15] = [1e-9, 1e-6, 1e-4, 1e-3, 1e-2, 0.1, 0.25, 0.5, 0.75, 0.9, 0.99, 0.999, 1.0 - 1e-4, 1.0 - 1e-6, 1.0 - 1e-9];
 
 /// argument values for a float method parameter of a constructed distribution
-fn x_pool_f(r: &mut Sm, fam: &str, ctor: &[Arg], inv_hangs: &mut bool) -> Vec<f64> {
+pub fn x_pool_f(r: &mut Sm, fam: &str, ctor: &[Arg], inv_hangs: &mut bool) -> Vec<f64> {
     let mut v: Vec<f64> = vec![];
     for p in P_GRID.iter() {
         let mut a = ctor.to_vec();
@@ -275,7 +275,7 @@ fn x_pool_f(r: &mut Sm, fam: &str, ctor: &[Arg], inv_hangs: &mut bool) -> Vec<f6
     v
 }
 
-fn x_pool_i(r: &mut Sm, fam: &str, ctor: &[Arg], signed: bool) -> Vec<i128> {
+pub fn x_pool_i(r: &mut Sm, fam: &str, ctor: &[Arg], signed: bool) -> Vec<i128> {
     let mut v: Vec<i128> = vec![0, 1, 2, 3, 5, 10];
     for m in ["min", "max"] {
         if let Some(x) = reply_i(&crate::call_timeout(&format!("{}::{}", fam, m), ctor, 2000)) {
@@ -291,6 +291,7 @@ fn x_pool_i(r: &mut Sm, fam: &str, ctor: &[Arg], signed: bool) -> Vec<i128> {
         for _ in 0..4 {
             v.push(-(r.below(100) as i128));
         }
+        v.retain(|x| *x >= i64::MIN as i128 && *x <= i64::MAX as i128);
     } else {
         v.retain(|x| *x >= 0 && *x <= i64::MAX as i128);
     }
@@ -392,7 +393,16 @@ pub fn main(args: &[String]) {
     let mut frees: Vec<&serde_json::Value> = vec![];
     for s in sigs.as_array().unwrap() {
         let id = s["id"].as_str().unwrap();
-        if !prefixes.is_empty() && !prefixes.iter().any(|p| id.starts_with(p.as_str())) {
+        let m = |p: &String| -> bool {
+            if let Some(x) = p.strip_prefix('=') {
+                id == x
+            } else if p.starts_with("::") {
+                id.ends_with(p.as_str())
+            } else {
+                id.starts_with(p.as_str())
+            }
+        };
+        if !prefixes.is_empty() && !prefixes.iter().any(m) {
             continue;
         }
         match s["self"].as_str() {
@@ -410,7 +420,7 @@ pub fn main(args: &[String]) {
         let ctypes = strs(&methods[0]["ctor"]);
         let cnames = strs(&methods[0]["ctor_names"]);
         for ti in 0..n_tuples {
-            let ctor = ctor_tuple(&mut r, fam, &ctypes, &cnames, thorough && ti % 2 == 1);
+            let ctor = ctor_tuple(&mut r, fam, &ctypes, &cnames, thorough && ti % 2 == 1, true);
             let ok = crate::call_timeout(&format!("{}::new", fam), &ctor, 2000).starts_with("ok");
             let mut inv_hangs = false;
             let xf = if ok { x_pool_f(&mut r, fam, &ctor, &mut inv_hangs) } else { vec![0.5, 1.0] };
